@@ -42,3 +42,4 @@ CFG = dict(
     timeout=900,
 )
 CFG["rule"] += ' z<size>b<cut>: one message compressed as two concatenated gzip members (large first member, last member of 3 or 12 bytes), sizes around and far above the limit, alone and between two small messages (gRPC family).'
+CFG["rule"] += ' Receive limits 2^32, 2^32+16, 2^40, 2^31+5 with a 100-byte message on every path and encoding.'
